@@ -88,6 +88,7 @@ package keeper
 //@   ensures returnedError == nil ==> (forall i :: {$pW[owner][i]} 0 <= i && i < $pLen[owner] ==>
 //@     $pW[owner][i] == old($pW[owner][i]) + wdOf(old($pIL[owner][i]), old($pS[owner][i]), old($pW[owner][i]), old($pLockEnd[owner][i]), $blockTime))
 //@   ensures returnedError == nil ==> (forall i :: {$pW[owner][i]} i < 0 || i >= $pLen[owner] ==> $pW[owner][i] == old($pW[owner][i]))
+//@   ensures returnedError == nil ==> poolsOK(owner)
 //@   ensures returnedError == nil ==> !withdrawn.Amount.IsNil() && withdrawn.Denom == $vestingDenom
 //@     && withdrawn.Amount == sumWd(old($pIL[owner]), old($pS[owner]), old($pW[owner]), old($pLockEnd[owner]), $blockTime, old($pLen[owner]))
 //@   // the coins paid leave the module account and reach the owner
@@ -144,6 +145,7 @@ package keeper
 //@     && $pName[o][n] == vestingPoolName && $pType[o][n] == vestingType && $pLockStart[o][n] == lockStart && $pLockEnd[o][n] == lockEnd
 //@     && $pIL[o][n] == amount && $pW[o][n] == 0 && $pS[o][n] == 0 && !$pGenesis[o][n]
 //@     && (forall i :: {$pIL[o][i]} 0 <= i && i < n ==> poolUnchanged(o, i) && $pW[o][i] == old($pW[o][i])))
+//@   ensures err == nil ==> poolsOK(toBech32(accAddress))
 //@   // exactly `amount` moves from the owner to the module account
 //@   ensures err == nil && accAddress != modaddr("cfevesting") ==>
 //@     $bal[modaddr("cfevesting")][$vestingDenom] == old($bal[modaddr("cfevesting")][$vestingDenom]) + amount
@@ -243,6 +245,7 @@ package keeper
 //@          && $pW[owner][i] == old($pW[owner][i]) + wdOf(old($pIL[owner][i]), old($pS[owner][i]), old($pW[owner][i]), old($pLockEnd[owner][i]), $blockTime)
 //@          && $pS[owner][i] == old($pS[owner][i]) + (i == j ? amount : 0))
 //@     && !amount.IsNil() && amount >= 0 && amount <= $pIL[owner][j] - old($pS[owner][j]) - $pW[owner][j])
+//@   ensures returnedError == nil ==> poolsOK(owner)
 //@   // C08: the new account: amount*(1-free) vests, on the restart schedule or at the pool's lock end
 //@   ensures returnedError == nil ==> (let j = lastNamed(old($pName[owner]), vestingPoolName, old($pLen[owner])) in let a = fromBech32(toAddr) in
 //@     let ty = old($pType[owner][j]) in
@@ -311,6 +314,45 @@ package keeper
 //@   // C07 (structural part): the recipient is a new continuous vesting account holding `amount`, same end, start = max(now, sender start)
 //@   ensures err == nil && from != toAddress ==> isNewCVA(toAddress, amount, max(fdiv($blockTime, 1000000000), old($accStart[from])), old($accEnd[from]))
 //@   prop C09 C07
+
+//@ // ---- C05: the locked sum of an owner, and how the three operations change it ----
+//@ spec func sumLocked(il [int]int, s [int]int, w [int]int, n int) int = n <= 0 ? 0 : sumLocked(il, s, w, n - 1) + il[n - 1] - s[n - 1] - w[n - 1]
+//@ // a withdrawal lowers the owner's locked sum by exactly the amount paid (the module balance drops by the same amount)
+//@ lemma withdrawLowersLocked(il [int]int, s [int]int, w [int]int, w2 [int]int, le [int]int, t int, n int)
+//@   induction n
+//@   requires n >= 0 && (forall i :: {w2[i]} 0 <= i && i < n ==> w2[i] == w[i] + wdOf(il[i], s[i], w[i], le[i], t))
+//@   ensures sumLocked(il, s, w2, n) == sumLocked(il, s, w, n) - sumWd(il, s, w, le, t, n)
+//@   prop C05
+//@ // a send lowers it by the withdrawal plus the amount sent from pool j
+//@ lemma sendLowersLocked(il [int]int, s [int]int, s2 [int]int, w [int]int, n int, j int, amount int)
+//@   induction n
+//@   requires n >= 0 && (forall i :: {s2[i]} 0 <= i && i < n ==> s2[i] == s[i] + (i == j ? amount : 0))
+//@   ensures sumLocked(il, s2, w, n) == sumLocked(il, s, w, n) - ((0 <= j && j < n) ? amount : 0)
+//@   prop C05
+//@ // a new pool raises it by the amount locked
+//@ lemma newPoolRaisesLocked(il [int]int, s [int]int, w [int]int, il2 [int]int, s2 [int]int, w2 [int]int, n int, amount int)
+//@   induction n
+//@   requires n >= 0 && (forall i :: {il2[i]} 0 <= i && i < n ==> il2[i] == il[i] && s2[i] == s[i] && w2[i] == w[i])
+//@   ensures sumLocked(il2, s2, w2, n) == sumLocked(il, s, w, n)
+//@   prop C05
+//@ // the locked sum of sound pools is non-negative
+//@ lemma lockedNonNeg(il [int]int, s [int]int, w [int]int, n int)
+//@   induction n
+//@   requires n >= 0 && (forall i :: {il[i]} 0 <= i && i < n ==> w[i] >= 0 && s[i] >= 0 && w[i] + s[i] <= il[i])
+//@   ensures sumLocked(il, s, w, n) >= 0
+//@   prop C05
+//@ func (k Keeper) CreateVestingPool(ctx, addr, name, amount, duration, vestingType) (err)
+//@   requires poolsOK(addr)
+//@   modifies $pFound, $pLen, $pName, $pType, $pLockStart, $pLockEnd, $pIL, $pW, $pS, $pGenesis, $bal, $accTag, $accSeq, $accPub
+//@   ensures existingAccountsUntouched()
+//@   ensures err != nil ==> poolStoreUnchanged() && $bal == old($bal)
+//@   ensures err == nil ==> (let n = (old($pFound[addr]) ? old($pLen[addr]) : 0) in
+//@     $pFound[addr] && $pLen[addr] == n + 1 && otherOwnersUnchanged(addr) && poolsOK(addr)
+//@     && $pIL[addr][n] == amount && $pW[addr][n] == 0 && $pS[addr][n] == 0 && $pLockStart[addr][n] == $blockTime && $pLockEnd[addr][n] == $blockTime + duration
+//@     && (forall i :: {$pIL[addr][i]} 0 <= i && i < n ==> poolUnchanged(addr, i) && $pW[addr][i] == old($pW[addr][i])))
+//@   ensures err == nil && fromBech32(addr) != modaddr("cfevesting") ==>
+//@     $bal[modaddr("cfevesting")][$vestingDenom] == old($bal[modaddr("cfevesting")][$vestingDenom]) + amount
+//@   prop C05
 
 //@ // ---- C13: only governance changes the vesting denomination, and only while no pool exists ----
 //@ spec func vpKey() str = global("types.ParamsKey")
